@@ -64,11 +64,6 @@ structure KeyWild (E : Env) (K : SemCtx) (U0 : CSet) : Prop where
   wild_key : ∀ w ds, keyOf (.atom (.wild w)) (fvdOf ds) = (wkey w, [])
   key_wild : ∀ t U ds w ren, GoodQ E K U0 t U ds → keyOf t (fvdOf ds) = (wkey w, ren) → t = .atom (.wild w)
 
-/-- HYPOTHESIS (library): the attractor computation returns the points of the unit in terminal SCCs -/
-def AttrSpec (E : Env) : Prop :=
-  ∀ U : CSet, ∀ p ∈ E.pts, (Ops.attractorsOf E U p = true ↔ (U p = true ∧
-    ∀ u, StarIn (E.G.stepRel p.c) (fun _ => True) p.s u → StarIn (E.G.stepRel p.c) (fun _ => True) u p.s))
-
 /-- the invariant of the evaluation context -/
 structure CacheOK (E : Env) (K : SemCtx) (U0 : CSet) (ctx : ECtx) : Prop where
   entries : ∀ key R rren, cacheGet key ctx.cache = some (R, rren) →
